@@ -136,6 +136,35 @@ pub fn clone_yields() -> bool {
 }
 
 thread_local! {
+    static COARSE: Cell<bool> = const { Cell::new(false) };
+}
+
+/// Coarse schedules: the scheduler may switch threads only at *semantic* points - before the first shared
+/// action of an elementary operation, inside the wrapped probe iterator, at closure invocations, and when
+/// the running thread waits. The number of atomic accesses inside an operation then has no influence on
+/// which interleaving a schedule denotes (used by the lock-step comparison of C13).
+pub fn set_coarse(v: bool) {
+    COARSE.with(|c| c.set(v))
+}
+
+pub fn coarse() -> bool {
+    COARSE.with(|c| c.get())
+}
+
+thread_local! {
+    static RECORD_TRACE: Cell<bool> = const { Cell::new(false) };
+}
+
+/// Whether the schedule engine records the shared-memory event trace of a case (C13 lock-step).
+pub fn set_record_trace(v: bool) {
+    RECORD_TRACE.with(|c| c.set(v))
+}
+
+pub fn record_trace() -> bool {
+    RECORD_TRACE.with(|c| c.get())
+}
+
+thread_local! {
     static TEARING_DOWN: Cell<bool> = const { Cell::new(false) };
 }
 
